@@ -102,7 +102,7 @@ func checkC12(c *Ctx, r *Report) {
 func checkC15(c *Ctx, r *Report) {
 	r.Explanation = "One structural clause (id-domain typing): every lookup in / insertion into a map of sequence parameter sets is keyed by a value from the SPS-id domain " +
 		"(SPS.ParameterID, SPS.SpsID, PPS.SeqParameterSetID) and never by one from the PPS-id domain (PPS.PicParameterSetID, SliceHeader.PicParamID / PicParameterSetId); maps of picture parameter sets the other way round. " +
-		"So the slice resolves its PPS by the slice's pps id and the SPS by THAT PPS's sps id. (L-SIBLING) no parser loop fills one of two twin lists (…L0/…L1, …S0/…S1) while deciding with the other list only; (T-SPEC) the sample-aspect-ratio table of avc.GetSARfromIDC equals H.264 Table E-1; (FWD-FIELD) no field-to-field copy between two struct types takes the value of a sibling field when both types have both names (e.g. chroma bit depth filled from luma bit depth). Parsed field values, the cropping formula, slice header length and codec strings are NOT decided."
+		"(L-SIGNEDMOD) where a signed sum that includes a signed Exp-Golomb delta is reduced modulo a constant M (the scaling-list recurrence), the dividend carries a constant bias of at least M; So the slice resolves its PPS by the slice's pps id and the SPS by THAT PPS's sps id. (L-SIBLING) no parser loop fills one of two twin lists (…L0/…L1, …S0/…S1) while deciding with the other list only; (T-SPEC) the sample-aspect-ratio table of avc.GetSARfromIDC equals H.264 Table E-1; (FWD-FIELD) no field-to-field copy between two struct types takes the value of a sibling field when both types have both names (e.g. chroma bit depth filled from luma bit depth). Parsed field values, the cropping formula, slice header length and codec strings are NOT decided."
 	spsDom := map[string]bool{"SPS.ParameterID": true, "SPS.SpsID": true, "PPS.SeqParameterSetID": true}
 	ppsDom := map[string]bool{"PPS.PicParameterSetID": true, "SliceHeader.PicParamID": true, "SliceHeader.PicParameterSetId": true}
 	n := 0
@@ -192,6 +192,11 @@ func checkC15(c *Ctx, r *Report) {
 		r.Undecided("FWD-FIELD", "scope", "", fmt.Sprintf("only %d field-to-field copies between different struct types found", pairs))
 	} else {
 		r.OK("FWD-FIELD", "scope", "", fmt.Sprintf("%d field-to-field copies between different struct types in avc, hevc, mp4: none takes a same-named sibling's value", pairs))
+	}
+	if n := ruleSignedMod(c, r, func(f *ssa.Function) bool {
+		return strings.HasPrefix(SSAFuncName(f), "avc.") || strings.HasPrefix(SSAFuncName(f), "hevc.")
+	}); n < 1 {
+		r.Undecided("L-SIGNEDMOD", "scope", "", "the scaling-list recurrence (signed sum reduced modulo 256) was not found in avc/hevc")
 	}
 }
 
